@@ -101,11 +101,11 @@ ENGINE_S_PROPS = {"C01", "C02", "C04", "C05", "C06"}
 def jobs_for(prop, tier):
     jobs = []
     q = tier == "quick"
-    caps = {"max_states": 60000 if q else 1500000, "max_seconds": 900 if q else 3000}
+    caps = {"max_states": 60000 if q else 500000, "max_seconds": 900 if q else 1200}
     if prop in ENGINE_S_PROPS:
         for sp in store_subjects(tier) + fleet_subjects(tier):
             jobs.append({"engine": "S", "prop": prop, "label": sp.label() + "#" + _h(sp), "spec": sp.to_json(), "caps": caps})
-        ccaps = {"max_states": 9000 if q else 300000, "max_seconds": 900 if q else 3000}
+        ccaps = {"max_states": 9000 if q else 150000, "max_seconds": 900 if q else 1200}
         for sp in conveyor_store_subjects(tier, eager=(prop == "C04")):
             jobs.append({"engine": "S", "prop": prop, "label": sp.label() + "#" + _h(sp), "spec": sp.to_json(), "caps": ccaps})
         if prop in ("C01", "C06"):
@@ -118,7 +118,7 @@ def jobs_for(prop, tier):
                          "prios": [0, 1] if q else [-1, 0, 1]})
     if prop == "C20":
         # store / edge level: every well-formed call and kernel step, also between the kernel events of one instant
-        scaps = {"max_states": 8000 if q else 200000, "max_seconds": 900 if q else 3000}
+        scaps = {"max_states": 8000 if q else 100000, "max_seconds": 900 if q else 1200}
         subs = [S("cconv", 2, live=2, age_cap=3, grid=1, acc=1), S("cconv", 2, live=2, age_cap=3, grid=1, acc=0),
                 S("sconv", 2, live=2, age_cap=3, grid=1, acc=1, delay=1), S("buffer", 2, live=2, mode="LIFO", delays=[0, 1], age_cap=2),
                 S("fleet", 2, live=2, delay=2, transit=0, age_cap=3, grid=1), S("fleet", 2, live=2, delay=1, transit=1, age_cap=3, grid=1),
@@ -151,14 +151,14 @@ def jobs_for(prop, tier):
             if sp.kind in ("buffer", "fleet"):
                 jobs.append({"engine": "S", "prop": prop, "label": sp.label() + "#" + _h(sp), "spec": sp.to_json(), "caps": caps})
     elif prop in ("C12", "C13"):
-        ccaps = {"max_states": 16000 if q else 400000, "max_seconds": 400 if q else 3000}   # state cap: deterministic coverage
+        ccaps = {"max_states": 16000 if q else 250000, "max_seconds": 400 if q else 1200}   # state cap: deterministic coverage
         for sp in conveyor_subjects(tier):
             jobs.append({"engine": "S", "prop": prop, "label": sp.label() + "#" + _h(sp), "spec": sp.to_json(), "caps": ccaps})
         if prop == "C12":
             for sp in conveyor_store_subjects(tier):
                 sp.kw["order_only"] = 1
                 jobs.append({"engine": "S", "prop": prop, "label": sp.label() + "#" + _h(sp), "spec": sp.to_json(),
-                             "caps": {"max_states": 9000 if q else 300000, "max_seconds": 900 if q else 3000}})
+                             "caps": {"max_states": 9000 if q else 150000, "max_seconds": 900 if q else 1200}})
     elif prop == "C14":
         for sp in fleet_subjects(tier, c14=True):
             jobs.append({"engine": "S", "prop": prop, "label": sp.label() + "#" + _h(sp), "spec": sp.to_json(), "caps": caps})
@@ -188,7 +188,7 @@ def f_jobs(prop, tier):
         for cfg in factory.FAMILIES[fam](tier):
             jobs.append({"engine": "F", "prop": prop, "label": cfg["tag"], "config": cfg, "bound": 2 if q else 3,
                          "crash_is_violation": prop == "C20",
-                         "caps": {"max_runs": 6000 if q else 300000, "max_seconds": 100 if q else 1200}})
+                         "caps": {"max_runs": 6000 if q else 300000, "max_seconds": 600 if q else 1200}})
     return jobs
 
 
